@@ -56,7 +56,7 @@ LEVEL_NOTE = ("Trusted base: the simulator runtime (simrt/), the instrumenter's 
 NOT_APPLICABLE = {}
 
 FO_RULE = ("Scenarios are drawn from the seeded PRNG (clients, keys, Gets with builder scripts, initial entry state per key, "
-           "FailoverConfig, backend kind (in 20 % a decorator wrapping read errors with %w), API flavour (Failover, FailoverOf[T], FailoverOf[any] over untyped backends), builder errors that wrap context / cache sentinels, value representation on the untyped API (struct, slice, map, struct-with-slice, pointer), fault plan) and executed under random / PCT / mostly-sequential "
+           "FailoverConfig, backend kind (in 20 % a decorator wrapping read errors with %w), API flavour (Failover, FailoverOf[T], FailoverOf[any] over untyped backends), builder errors that wrap context / cache sentinels, builders that call Get for another key, value representation on the untyped API (struct, slice, map, struct-with-slice, pointer), fault plan) and executed under random / PCT / mostly-sequential "
            "schedules at call-out and lock granularity. ")
 
 prop("C02", quick={"runs": 8000}, thorough={"runs": 100000000, "budget_s": 600}, level="fault_enumeration",
@@ -109,9 +109,9 @@ prop("C07", quick={"runs": 16000}, thorough={"runs": 100000000, "budget_s": 600}
      rule=BE_RULE + "One client issues 1-40 operations with clock jumps from ns to days; each result is compared with a reference "
      "map with per-entry expiry intervals; Walk callbacks and Dump writers fail at chosen positions and the sequence goes on. Non-trivial: >= 2 operations; distinct = distinct (scenario, schedule signature).",
      rules=["C07.<op>: Read/Load/Delete/Len/Walk results equal the reference map's; ExpireAll expires everything incl. never-expiring; "
-            "expired reads carry value and expiry instant", "C07.walkErr / dumpErr: a failing callback / writer stops the walk, its error and the count of completed callbacks are returned",
+            "expired reads carry value and expiry instant", "C07.walkErr / dumpErr: a failing callback / writer stops the walk, its error and the count of completed callbacks are returned", "C07.walkDel: a Walk callback may delete the entry it is shown (re-entrant use), the walk still visits every entry once",
             "C07.STUCK an operation of the sequence never returns (scheduler state, not a timeout)", "C07.PANIC an operation panicked"],
-     probes=["read:nil", "read:notfound", "read:expired", "delete:nil", "delete:notfound", "expireAll", "deleteAll", "walk", "walkErr", "dumpErr", "len", "load", "store"])
+     probes=["read:nil", "read:notfound", "read:expired", "delete:nil", "delete:notfound", "expireAll", "deleteAll", "walk", "walkErr", "walkDel", "dumpErr", "len", "load", "store"])
 prop("C10", quick={"runs": 16000}, thorough={"runs": 100000000, "budget_s": 600},
      rule=BE_RULE + "Root-driven (no concurrency): 1-6 writes (Write, or Store which has no context) with config TTL {default, unlimited, 1ns..10y, negative -2ns..-1y}, context TTL {none, 0, +-1ns..+-10y}, "
      "ExpirationJitter {disabled, default, values in (0,1], 1.5, 2}, jitter draw {0, 0.5, 1-2^-53, PRNG}; after each write Walk gives ExpireAt, the clock "
